@@ -150,4 +150,69 @@ theorem C04_suppressed (pr : EProto α) (cfg : Config) (inch : α) (y : Sys α) 
   simp only [Sys.step, stepT, forwarded_gcode, linear_handle cfg inch y.s g c hl]
   exact this
 
+/-! ## The same for arcs (G2/G3 in I/J form) -/
+
+/-- `g` is an arc command -/
+def isArc (g : String) : Prop := Code.ofString g = .G2 ∨ Code.ofString g = .G3
+
+/-- the arc is executed: a centre offset is given -/
+def arcExecuted (c : Cmd α) : Prop :=
+  (!((lastValue c.words 'I').getD 0 == 0) || !((lastValue c.words 'J').getD 0 == 0)) = true
+
+theorem arc_handle (cfg : Config) (inch : α) (s : FState α) (g : String) (c : Cmd α) (ha : isArc g)
+    (hR : lastValue c.words 'R' = none) (hx : arcExecuted c) :
+    ∃ z pts, T.handleGcode cfg inch s g c =
+      T.processLinearMoves cfg s c (lastValue c.words 'E') (lastValue c.words 'F') (some z) pts := by
+  unfold T.handleGcode
+  unfold arcExecuted at hx
+  rcases ha with h | h <;> rw [h] <;> simp only [T.handleG2, hR, hx, if_true] <;> exact ⟨_, _, rfl⟩
+
+theorem arc_proto (pr : EProto α) (cfg : Config) (s : FState α) (V : EV α) (g : String) (c : Cmd α)
+    (ha : isArc g) (he : EDialect pr cfg s V g c) :
+    c.code = g ∧ lastValue c.words 'R' = none ∧ MoveOK V (T.deltaEOf s (lastValue c.words 'E')) := by
+  obtain ⟨h1, h2⟩ := he
+  rcases ha with h | h <;> rw [h] at h2 <;> exact ⟨h1, h2.1, h2.2⟩
+
+theorem arc_exec (g90e : Bool) (inch : α) (g : String) (c : Cmd α) (ha : isArc g) (hc : c.code = g)
+    (hx : arcExecuted c) (Q : EV α) : Q.out g90e inch (.orig c) = Q.lin (lastValue c.words 'E') := by
+  unfold arcExecuted at hx
+  simp only [EV.out, hc]
+  rcases ha with h | h <;> rw [h] <;> simp only [EV.exec, hx, if_true]
+
+/-- **C04 (amounts), arcs.** -/
+theorem C04_amount_arc (pr : EProto α) (cfg : Config) (inch : α) (y : Sys α) (g : String) (c : Cmd α)
+    (hg : GoodE pr y) (ha : isArc g) (hx : arcExecuted c) (he : EDialect pr cfg y.s y.virt.ev g c)
+    (hpre : y.s.excluding = false) (hpost : (y.step cfg inch (.gcode g c)).s.excluding = false)
+    (hpos : 0 < T.deltaEOf y.s (lastValue c.words 'E')) :
+    ∃ pre, Emit.forwarded (.gcode g c) (stepT cfg inch y.s (.gcode g c)).2 = pre ++ [.orig c] ∧
+      (y.phys.execOuts cfg.g90InfluencesExtruder inch pre).pos.e = y.virt.pos.e ∧
+      (y.phys.execOuts cfg.g90InfluencesExtruder inch pre).depth = y.virt.depth ∧
+      (y.phys.execOuts cfg.g90InfluencesExtruder inch pre).fwRetracted = y.virt.fwRetracted := by
+  obtain ⟨hcode, hR, hproto⟩ := arc_proto pr cfg y.s y.virt.ev g c ha he
+  obtain ⟨z, pts, hh⟩ := arc_handle cfg inch y.s g c ha hR hx
+  simp only [Sys.step, stepT, hh] at hpost
+  simp only [stepT, forwarded_gcode, hh]
+  have hmv : T.isMoveOf (some z) pts = true := by simp [T.isMoveOf]
+  obtain ⟨pre, k1, k2, k3, k4⟩ := plm_extrude_pre cfg.g90InfluencesExtruder inch cfg pr y.s y.phys.ev y.virt.ev c
+    _ _ (some z) pts hg.good.wf hg.einv (by rw [hmv]; simpa using hproto) hpre hpost hpos
+  refine ⟨pre, k1, ?_, ?_, ?_⟩
+  · have := k2; rw [← ev_execOuts] at this; exact this
+  · have := k3; rw [← ev_execOuts] at this; exact this
+  · have := k4; rw [← ev_execOuts] at this; exact this
+
+/-- **C04 (suppressed commands), arcs.** -/
+theorem C04_suppressed_arc (pr : EProto α) (cfg : Config) (inch : α) (y : Sys α) (g : String) (c : Cmd α)
+    (hg : GoodE pr y) (ha : isArc g) (hx : arcExecuted c) (he : EDialect pr cfg y.s y.virt.ev g c)
+    (hno : Out.orig c ∉ Emit.forwarded (.gcode g c) (stepT cfg inch y.s (.gcode g c)).2) :
+    (y.step cfg inch (.gcode g c)).phys.fil ≤ y.phys.fil := by
+  obtain ⟨hcode, hR, hproto⟩ := arc_proto pr cfg y.s y.virt.ev g c ha he
+  obtain ⟨z, pts, hh⟩ := arc_handle cfg inch y.s g c ha hR hx
+  simp only [stepT, forwarded_gcode, hh] at hno
+  have hmv : T.isMoveOf (some z) pts = true := by simp [T.isMoveOf]
+  have := plm_nopush cfg.g90InfluencesExtruder inch cfg pr y.s y.phys.ev y.virt.ev c _ _ (some z) pts hg.good.wf
+    hg.einv hg.good.inv.pend (by rw [hmv]; simpa using hproto) hno
+  rw [← ev_execOuts] at this
+  simp only [Sys.step, stepT, forwarded_gcode, hh]
+  exact this
+
 end ERP.C04
